@@ -42,7 +42,7 @@ pub fn check(ctx: &Ctx) -> i32 {
     let mut ev = Evidence::default();
     ev.rule = "print-free linearized AxCut programs from the pipeline (generated Fun programs; programs needing more than 14 live variables hit the documented capacity assertion and are discarded) x 2 argument tuples; oracle: value of X10 at `cleanup:` of the emulated RISC-V pseudo-assembly (64-bit loads/stores, X2/X3 = heap/free pointers, parameters in the second temporaries) vs the positional AxCut machine, plus agreement with the x86-64 and AArch64 emulations of the same program. Non-trivial: the run has a multi-block object, a shared object or > 6 live variables; distinct by hash of (source, arguments).".into();
     ev.assumptions = vec!["emulator's reading of the backend's pseudo-syntax (DESIGN.md Appendix A)".into()];
-    let n = ctx.tier.pick(2000, 40000);
+    let n = ctx.tier.pick(2000, 100000);
     let arch = Arch::Rv;
     let run = |b: &[u8]| {
         let c = decode(ctx, arch, b);
@@ -58,7 +58,7 @@ pub fn check(ctx: &Ctx) -> i32 {
     }
     if report.violations.is_empty() {
         let lcfg = lin_cfg_for(ctx, arch);
-        let n2 = ctx.tier.pick(2500, 50000);
+        let n2 = ctx.tier.pick(2500, 150000);
         let run2 = |b: &[u8]| {
             let c = decode_lin(&lcfg, b);
             let (r, runs) = run_lin_case(ctx, Arch::Rv, &c, false);
